@@ -217,6 +217,7 @@ func (fc *FuncCtx) verifyBody(short string) {
 	}
 	cover := &Obligation{Name: short + "/cover.return", Kind: "vacuity", Func: short, LogLen: len(fc.u.Log), Goal: "true", PC: exit.pc, Unit: fc.u, Props: fc.props, WantSat: true, Desc: "some return is reachable under the precondition"}
 	fc.u.Obls = append(fc.u.Obls, cover)
+	fc.lockLeak(fr, exit, entrySnap)
 	// ghost updates at exit
 	vars := map[string]Value{}
 	for i, rn := range fr.resultNames {
@@ -410,6 +411,9 @@ func (fc *FuncCtx) verifyPaths(fr *Frame, st *State, entrySnap *State, short str
 	}
 	cover := &Obligation{Name: short + "/cover.return", Kind: "vacuity", Func: short, LogLen: len(fc.u.Log), Goal: "true", PC: tOr(pcs...), Unit: fc.u, Props: fc.props, WantSat: true, Desc: "some return is reachable under the precondition"}
 	fc.u.Obls = append(fc.u.Obls, cover)
+	for _, r := range rets {
+		fc.lockLeak(fr, r.st, entrySnap)
+	}
 	for pi, r := range rets {
 		vars := map[string]Value{}
 		for i, rn := range fr.resultNames {
@@ -450,5 +454,21 @@ func (fc *FuncCtx) verifyPaths(fr *Frame, st *State, entrySnap *State, short str
 		if ac.Assert != nil && fc.clauseHit[ac.Assert] == 0 {
 			fc.driftf(fr, "`at call %s` clause attached to no call site", ac.Callee)
 		}
+	}
+}
+
+// lockLeak: a function returns with every lock released that it acquired itself (a lock that its contract requires to
+// be held on entry may still be held). A goroutine or handler that returns with a lock held blocks everybody else.
+func (fc *FuncCtx) lockLeak(fr *Frame, exit *State, entry *State) {
+	seen := map[string]bool{}
+	for _, h := range exit.heldLocks {
+		if seen[h] {
+			continue
+		}
+		seen[h] = true
+		i := strings.LastIndex(h, "|")
+		key, ref := h[:i], h[i+1:]
+		g := tImp(fc.heldTerm(exit, key, ref), fc.heldTerm(entry, key, ref))
+		fc.oblige(fr, exit, "lock.leak", "", g, fr.fn.Pos(), "every lock this function acquired is released when it returns")
 	}
 }
